@@ -372,6 +372,15 @@ def families(thorough):
                     out.append(("F2", client, start, method, pl, (ALL_STATUS + G.NOT_REDIRECT, f2_forms, 2, 0)))
                     if thorough:
                         out.append(("F2", client, start, method, pl, ((302, 303, 307), f2_forms, 3, 0)))
+        # F3: the FIRST attempt of the first request dies after it was received (connection closed without an
+        # answer); the retried attempt gets the redirect. Chains of one hop, policies whose budget cannot bind
+        # (total >= 3), GET only (idempotent: the retry is legitimate) - the redirect rules must hold unchanged
+        # on a retried attempt: same follow-ups, redirect=False still hands back the 3xx.
+        f3_pl = [(NOT_GIVEN, NOT_GIVEN, NOT_GIVEN), (NOT_GIVEN, NOT_GIVEN, False), (R(total=5), NOT_GIVEN, NOT_GIVEN),
+                 (R(total=5), NOT_GIVEN, False), (NOT_GIVEN, R(total=5), NOT_GIVEN), (NOT_GIVEN, R(total=5), False)]
+        for start in ("had", "sad"):
+            for pl in f3_pl:
+                out.append(("F3", client, start, "GET", pl, (ALL_STATUS, f2_forms, 1, 0)))
     return out
 
 
@@ -389,6 +398,7 @@ def make_case(fam, hops, mode):
     _, client, start, method, pl, _ = fam
     post = method == "POST"
     return {"client": client, "start": start, "hops": hops, "mode": mode, "method": method,
+            "break_first": 1 if fam[0] == "F3" else 0,
             "body": BODY if post else None,
             "headers": [list(h) for h in ((CONTENT_HEADERS if post else CONTENT_HEADERS[:1]) + [KEEP])],
             "header_container": "dict", "req_policy": pl[0], "ctor_policy": pl[1], "redirect_kw": pl[2]}
